@@ -21,7 +21,7 @@ from fractions import Fraction
 import numpy as np
 from hypothesis import strategies as st
 from vp.runner import Test
-from vp.util import F, FL
+from vp.util import F
 
 PROP = 'C18'
 RULE = ("samples of length 2-10 drawn from a small pool (ties), the grid k/64 and 3-decimal floats in [-64,64]; two "
@@ -40,6 +40,9 @@ ASSUME = ["tolerance rel 1e-9 / abs 1e-12, where 'rel' is taken against max(|val
           "weighted median: only the convention-free inequality W(x<m) <= W/2 >= W(x>m) is asserted; mad/median preservation "
           "for weighted data only when the weighted median is unique",
           "winsorising (clip=True) exactly on a cumulative-weight boundary accepts either neighbouring quantile",
+          "impose_unweighted(nullable=False) with every supported point unweighted: how the total is spread over the other "
+          "points is undocumented, only zeroing / total / mean are asserted; impose_collapse: which member of a pair keeps the "
+          "weight is not asserted (docstring prose and examples disagree), only that one of the two is zeroed and both are tied",
           "impose_reweighted_*: a None result (documented 'could not impose' warning) is excluded and counted; sign of the new weights is only labelled"]
 
 REL = 1e-9
@@ -873,9 +876,9 @@ def run_weights(case, ctx):
         common(y, w2, det, 'unweighted')
         if case['null']:
             ctx.label('unweighted:reweight-the-rest')
-            rest = [i for i in range(n) if i not in drop]
-            ctx.expect(all((w2[i] == 0.0) if i in drop else near(w2[i], tot / len(rest)) for i in range(n)),
-                       'C18.unweighted_zeroed', det)
+            # documented only as "avoid null weights by reweighting non-index weights": how the total is
+            # spread over the other points is not specified, so only the zeroing (and total/mean above) is asserted
+            ctx.expect(all(w2[i] == 0.0 for i in drop) and all(w2[i] >= 0.0 for i in range(n)), 'C18.unweighted_zeroed', det)
         else:
             ktot = math.fsum(ws[i] for i in range(n) if i not in drop)
             ctx.expect(all((w2[i] == 0.0) if i in drop else ((w2[i] == 0) == (ws[i] == 0) and near(w2[i], ws[i] * tot / ktot))
